@@ -5,7 +5,8 @@
                   equal the Go results;
      property   : (implementation observables only) WriteDirty succeeded, Load succeeded, the
                   reloaded trie re-encodes to the same root, has the same entries and the same
-                  child tries as the in-memory state, and GetFromDB returns for every probed key
+                  child tries as the in-memory state had before the write, the in-memory state is
+                  unchanged by the write, and GetFromDB returns for every probed key
                   exactly the entry of the in-memory state (nil for absent keys). *)
 open Model
 open Vutil
@@ -21,7 +22,18 @@ let hash_memo (x : byte list) : byte list =
 let nib_of_bytes (l : byte list) : string =
   if l = [] then "-" else String.concat "" (List.map (fun x -> Printf.sprintf "%x" (int_of_byte x)) l)
 let bytes_of_nib (s : string) : byte list =
-  if s = "-" then [] else List.init (String.length s) (fun i -> byte_of_int (hexval s.[i]))
+  (* one hex digit per nibble; a partial-key byte above 15 (a corrupted key) is written <xx> *)
+  if s = "-" then [] else begin
+    let out = ref [] and i = ref 0 in
+    while !i < String.length s do
+      if s.[!i] = '<' then begin
+        out := byte_of_int (16 * hexval s.[!i + 1] + hexval s.[!i + 2]) :: !out; i := !i + 4
+      end else begin
+        out := byte_of_int (hexval s.[!i]) :: !out; incr i
+      end
+    done;
+    List.rev !out
+  end
 
 type cursor = { tok : string array; mutable pos : int }
 let peek c = if c.pos < Array.length c.tok then c.tok.(c.pos) else "<eof>"
@@ -120,6 +132,8 @@ let check inp obs =
     let r = next c in
     expect c "W";
     let w = next c in
+    expect c "MA";
+    let ma = parse_entries c in
     expect c "DB";
     let ndb = int_of_string ("0x" ^ next c) in
     let dump = List.init ndb (fun _ -> ()) |> List.map (fun () -> let k = next c in let v = next c in (k, v)) in
@@ -179,6 +193,7 @@ let check inp obs =
         if dbv <> truth then pbad (Printf.sprintf "GetFromDB(%s)=%s state=%s" k dbv truth)) probes;
     (* ---------------- property on the implementation's observables *)
     if w <> "ok" then pbad "WriteDirty failed";
+    if ma <> me then pbad "WriteDirty changed the in-memory state";
     (match lobs with
      | None -> pbad ("Load " ^ lres)
      | Some (r', e, ct) ->
